@@ -278,6 +278,9 @@ func main() {
 }
 
 func printSolverStats() {
+	if debugCallers {
+		printCallerStats()
+	}
 	fmt.Printf("init: %.2fs total, %d steps\n", float64(initNanos)/1e9, initSteps)
 	fmt.Printf("query cache hits: %d\n", cacheHits)
 	fmt.Printf("decided by key-domain reasoning without solver: %d\n", domainDecided)
